@@ -19,6 +19,7 @@ class State:
         self.index_terms = []   # index terms at which `inst` facts have been / must be instantiated
         self.ghost = {}         # ghost state (flat keys, e.g. "os.flags")
         self.nd_count = {}      # occurrences of each nondeterministic choice site on this path
+        self.seq_inst = {}      # z3 ast id of a mapped sequence -> its element fact (i -> Bool), re-based when it is concatenated
 
     def clone(self):
         n = State()
@@ -32,6 +33,7 @@ class State:
         n.index_terms = list(self.index_terms)
         n.ghost = dict(self.ghost)
         n.nd_count = dict(self.nd_count)
+        n.seq_inst = dict(self.seq_inst)
         return n
 
     def nd_bool(self, site):
